@@ -1108,4 +1108,54 @@ theorem columnMeans_getElem? (atol rtol : K) (pl : List (DRow K)) (ux : List K) 
     (columnMeans atol rtol pl ux)[i]? = some (meanV ((pl.filter fun r => isclose atol rtol r.x x).map (·.d))) := by
   simp [columnMeans, List.getElem?_map, h]
 
+/-! ### cylinder radius and the faces of the box -/
+
+/-- squared distance of the Cartesian origin from the plane with (un-normalised) normal `pl.1` through `pl.2`. -/
+def planeDist2 (pl : V3 K × V3 K) : K := V3.dot pl.1 pl.2 * V3.dot pl.1 pl.2 / V3.normSq pl.1
+
+theorem min4_le (a b c d : K) : min4 a b c d ≤ a ∧ min4 a b c d ≤ b ∧ min4 a b c d ≤ c ∧ min4 a b c d ≤ d := by
+  unfold min4
+  simp only
+  refine ⟨?_, ?_, ?_, ?_⟩ <;> split_ifs <;> linarith
+
+theorem min4_mem (a b c d : K) : min4 a b c d = a ∨ min4 a b c d = b ∨ min4 a b c d = c ∨ min4 a b c d = d := by
+  unfold min4
+  simp only
+  split_ifs <;> simp
+
+/-- a face containing the line direction `L = l e_line` and the vector `v`: its squared distance from the line through
+    the origin equals the 2D distance of `lineDist2` in the `(m, n)` projection. -/
+theorem planeDist2_face (mi ni line : Nat) (hperm : (mi, ni, line) ∈ [(0, 1, 2), (1, 0, 2), (0, 2, 1), (2, 0, 1), (1, 2, 0), (2, 1, 0)])
+    (L v pt : V3 K) (hm : L.get mi = 0) (hn : L.get ni = 0) (hl : L.get line ≠ 0)
+    (hv : (proj2 mi ni v).1 * (proj2 mi ni v).1 + (proj2 mi ni v).2 * (proj2 mi ni v).2 ≠ 0) :
+    planeDist2 (V3.cross v L, pt) = lineDist2 (proj2 mi ni pt) (proj2 mi ni v) ∧
+    planeDist2 (V3.cross L v, pt) = lineDist2 (proj2 mi ni pt) (proj2 mi ni v) := by
+  obtain ⟨lx, ly, lz⟩ := L
+  obtain ⟨a, b, c⟩ := v
+  obtain ⟨p, q, r⟩ := pt
+  simp only [List.mem_cons, Prod.mk.injEq, List.mem_nil_iff, or_false] at hperm
+  rcases hperm with ⟨rfl, rfl, rfl⟩ | ⟨rfl, rfl, rfl⟩ | ⟨rfl, rfl, rfl⟩ | ⟨rfl, rfl, rfl⟩ | ⟨rfl, rfl, rfl⟩ | ⟨rfl, rfl, rfl⟩ <;>
+  · simp only [V3.get, proj2, OfNat.ofNat_ne_zero, OfNat.ofNat_ne_one, if_true, if_false, one_ne_zero, ↓reduceIte] at hm hn hl hv ⊢
+    subst hm; subst hn
+    simp only [planeDist2, lineDist2, cross2, V3.cross, V3.dot, V3.normSq]
+    have hd := mul_ne_zero (mul_ne_zero hl hl) hv
+    constructor <;>
+    · rw [div_eq_div_iff (by intro h; apply hd; linear_combination h) hv]
+      ring
+
+theorem proj2_add (mi ni : Nat) (a b : V3 K) :
+    proj2 mi ni (a + b) = ((proj2 mi ni a).1 + (proj2 mi ni b).1, (proj2 mi ni a).2 + (proj2 mi ni b).2) := by
+  cases a; cases b
+  simp only [proj2, V3.get, HAdd.hAdd, V3.add]
+  split_ifs <;> rfl
+
+/-- what the four entries of `cylSmallest2` are. -/
+theorem cylSmallest2_eq (mi ni line : Nat) (b : Box K) :
+    cylSmallest2 mi ni line b =
+      min4 (lineDist2 (proj2 mi ni b.origin) (proj2 mi ni (b.vects.row ((line + 1) % 3))))
+           (lineDist2 (proj2 mi ni b.origin) (proj2 mi ni (b.vects.row ((line + 2) % 3))))
+           (lineDist2 (proj2 mi ni (b.origin + b.vects.row ((line + 2) % 3))) (proj2 mi ni (b.vects.row ((line + 1) % 3))))
+           (lineDist2 (proj2 mi ni (b.origin + b.vects.row ((line + 1) % 3))) (proj2 mi ni (b.vects.row ((line + 2) % 3)))) := by
+  simp only [cylSmallest2, proj2_add]
+
 end Atomman.C13
